@@ -104,6 +104,41 @@ CHECKS = {
              'against the real function with os.environ compared before/after; a negative-control config (restore on success only) must be refuted by TLC.',
         note='Trusted: the counting proxies in harness/faults.py (collaborators replaced in the module namespace; heavy stages are cheap fakes), '
              'so faults inside the real heavy stages are represented by the stage call raising. No double faults, no BaseException-only exceptions.'),
+    'C05': dict(
+        category='model_checking', design='DESIGN.md section 4 C05',
+        technique="TLA+ spec (FoF: components by the chain relation; groups.__init__ and chunks.friendsoffriends transcribed as step functions/actions; 16 invariants incl. mapGroups[i]<=i) model-checked over all graphs x chunk covers; every (graph, cover) replayed through the real chunks.friendsoffriends/groups/renumbering; real spheregroup runs judged by Trace_FoF against the spec's components",
+        text='Bounded-exhaustive: all graphs on 2..5 points x covers of up to 3 (5 for tiny n) chunks satisfying the margin assumption, plus a deep family of 5-chunk covers; real spheregroup on chains across chunks, seam clusters, polar caps (incl. Dec=+-90), lattices, all-sky, permutations and chunk sizes with links from an independent longdouble oracle (guard band; TLC tries every resolution of borderline pairs).',
+        note='Trusted: TLC; the longdouble chord/atan2 separation oracle; the subclass that sets the chunk layout to the cover for replay. The order in which next[] visits members is left open as in the statement.'),
+    'C08': dict(
+        category='model_checking', design='DESIGN.md section 4 C08',
+        technique='TLA+ spec (BSplineBasis over exact rationals: knot construction per option, Cox-de Boor defined twice and TLC checks agreement, evaluation bookkeeping; 10 laws) enumerated by TLC; every case replayed into bspline(...), value(), intrv(), bsplvn(); recorded random constructor/evaluation calls on dyadic grids judged by Trace_BSplineBasis',
+        text='Bounded-exhaustive: orders 1..6 x every increasing integer breakpoint set within 0..4 (0..6) x half/third-integer points in every order, repeated breakpoints, arbitrary stored knot vectors, option sweeps (bkspace, nbkpts, everyn 1..N+1, all 128 placed subsets) on grids/reversed/shuffled/clustered/tied data; values compared to 1e-10, knots to 1e-6 relative (float32 storage).',
+        note="Trusted: TLC; dyadic-rational concretisation (exact in float). Random non-dyadic floats are outside TLC's 32-bit integers and are not exercised. A point on a breakpoint may take the value of either neighbouring cell (open in the statement for order 1)."),
+    'C09': dict(
+        category='model_checking', design='DESIGN.md section 4 C09',
+        technique='TLA+ spec (BSplineFit: banded Cholesky from exact integer factors with the band-storage mapping, tiny-fit optimum by Cramer over rationals, polynomial reproduction, failure-as-status machine FitOK/FitDrop/FitFail) model-checked by TLC; every case/machine state replayed into cholesky_band/cholesky_solve/bspline.fit; recorded fit/iterfit histories validated event by event; float law instances (lstsq agreement, zero-weight invariance, linearity) judged by TLC on measured discrepancies',
+        text='Bounded-exhaustive for the discrete parts: integer factors n<=3 fully (4..8 sampled by formula), bandwidth 1..6 with indefinite/non-finite variants; fits with <=3 coefficients; support patterns over <=5 cells x orders 1..4. Optimality beyond 3 coefficients and on float data is exploration (independent dense lstsq).',
+        note='Trusted: TLC; numpy.linalg.lstsq as independent solver for the float law instances (tolerance 2e-6, measured <=1e-9). Where detection of too-few-data happens at rounding level any documented status is accepted but coefficients must be finite.'),
+    'C10': dict(
+        category='model_checking', design='DESIGN.md section 4 C10',
+        technique="TLA+ state machine (IterFit: Sort/Fit/Reject/LoopOrExit/Unsort/Return with an oracle for residuals; 11 laws, two-run composition for permutation invariance) model-checked by TLC; every finished TLC behaviour executed on the real iterfit+djs_reject with bspline.fit replaced by that behaviour's oracle; real iterfit runs recorded through proxies and validated event by event by Trace_IterFit",
+        text="Exhaustive for n<=3 (5 in chains/pairs): every caller order, weighted subset, maxiter, limit pair and step-by-step oracle answer; real runs on 60-400 points with outliers, zero/negative weights, ties, orders 2-4, all breakpoint options, each in 4 caller orders, with an independent lstsq over the harness's own Cox-de Boor basis supplying the residual oracle (guard band) and the final-curve comparison.",
+        note='Trusted: TLC; the recording proxies; the independent solver for residual classes and for "returned curve equals the fit to the last fitted set" (harness-evaluated numeric relation, tolerance 1e-3 sigma).'),
+    'C11': dict(
+        category='model_checking', design='DESIGN.md section 4 C11',
+        technique='TLA+ spec (Resample over exact rationals: MustBeZero by bracketing, InterpIvar, LocalMax, growth model, redshift index; 12 laws) enumerated by TLC; every case realised on a real log-lambda grid and run through combine1fiber; recorded realistic spectra judged by Trace_Resample (zero-set containment, interpolation, law instances for identity/constant/scaling/redshift as scaled integers)',
+        text='Bounded-exhaustive for the zero-set/finite/shape/interpolated-ivar claims: all 1024 (4096) good-patterns x 14 output grids, inflated x10 and two-exposure families; the numeric laws (identity to interpolation accuracy, constant, scaling, redshift shift) are harness-measured and judged by TLC against thresholds stated in the spec.',
+        note='Trusted: TLC; the rational<->grid concretisation (equal rationals give bit-identical floats). An output pixel exactly on an isolated good input pixel is accepted either way (the literal bracket reading would flag behaviour no maintainer would change).'),
+    'C13': dict(
+        category='model_checking', design='DESIGN.md section 4 C13',
+        technique='TLA+ spec (TraceSetPoly over exact rationals: each basis defined three ways and TLC checks agreement, fit by weighted normal equations, fixed coefficients, xnorm with the BOSS jump, default grid; 22 laws) enumerated by TLC; every case replayed into flegendre/fchebyshev/fpoly/fchebyshev_split, func_fit, TraceSet/xy2traceset/traceset2xy in several calling conventions; recorded random calls judged by Trace_TraceSetPoly (exact kinds + lstsq law instances)',
+        text='Bounded-exhaustive: every (basis, order<=12, abscissa with denominator<=8) that fits 32 bits; fits over 6 abscissa sets x coefficient vectors {-2..2}^nc, all fixed masks, all zero-weight subsets, inexact data; trace-set layouts with per-trace ranges and 6 jump kinds. General weighted least squares on float data is exploration (numpy lstsq).',
+        note='Trusted: TLC; Fraction comparison at 1e-9 (float64) / 1e-4 (float32); numpy.polynomial vandermonde + lstsq as independent solver for the float law instances.'),
+    'C15': dict(
+        category='model_checking', design='DESIGN.md section 4 C15',
+        technique='TLA+ spec (LinSolve: exact WLS by Cramer over rationals with 9 laws, exact scatter-matrix laws for pcomp, exact alternating HMF updates on tiny integer data, HMF protocol machine with chi-square non-increase as action property) model-checked by TLC; every state replayed into computechi2/pcomp/HMF.astep/gstep; recorded computechi2/pcomp/pca_solve calls and HMF traces (stepped and full iterate runs, same-seed twins) judged by Trace_LinSolve',
+        text="Exhaustive for small integer systems (N<=5, M<=3, zero weights, three calling conventions) with exact rational comparison; HMF/pca_solve/pcomp identities on realistic float matrices are harness-measured scaled integers judged by the spec's laws (gradient vanishes, chi-square never increases, unit rms, seed determinism, inputs untouched, projections, eigenvalue order, use-mask).",
+        note='Trusted: TLC; float->rational abstraction with denominator<=1e4 for recorded calls. Exact HMF chains stop after two updates (32-bit integers); longer iterations are covered by float traces only. ctx.assumptions lists the harness-evaluated sub-claims.'),
 }
 
 PENDING_REASON = 'check not built yet in this round (planned in DESIGN.md section 4); not claimed until its spec, replay and evidence exist'
